@@ -105,5 +105,20 @@ def run(ck: Check):
         cs.obs(tr, "error_vs_exact_flow", max(errs))
         if len(ck.cov["samples"]) < 16:
             ck.sample({"linear_terms_case": f"order={order}", "error_dt=0.02": errs[0], "error_dt=0.01": errs[1]})
+    # the step is the scheme's map for every step size AND every epoch: the Hamiltonian is autonomous, so the same grid shifted to a
+    # large clock value (t0 = 1000, 2000; a long run continued in short chunks) must give the same states
+    for order in ((2, 4) if ck.quick else (2, 4, 6)):
+        for nst, hh in ((1, 5e-3), (10, 4e-3)):
+            g0 = np.arange(nst + 1) * hh
+            ref = np.asarray(sy._ExtendedSymplectic(order=order).integrate(ham, y0.copy(), g0).states)
+            worst = 0.0
+            for T0 in (1000.0, 2000.0):
+                sh = np.asarray(sy._ExtendedSymplectic(order=order).integrate(ham, y0.copy(), T0 + g0).states)
+                worst = max(worst, float(np.max(np.abs(sh - ref))) if sh.shape == ref.shape else 1.0)
+            tr = cs.trace(f"order={order}|epoch-shift|steps={nst}", {"epoch_independence": -80, "state_advances": -100},
+                          {"order": order, "path": "epoch-shift"})
+            ck.count(("epoch-shift", order, nst), True)
+            cs.obs(tr, "epoch_independence", worst)                 # rounding of (T0 + k h) - (T0 + (k-1) h): ~1e-13 * |f|
+            cs.obs(tr, "state_advances", 0.0 if float(np.max(np.abs(ref[-1] - y0))) > 1e-4 else 1.0)
     cs.decide(key_fn=lambda tr, n: f"_ExtendedSymplectic|{tr['data']['path']}|{n}")
     cs.selftest()
